@@ -25,6 +25,22 @@ CHECKS = {
    text="Exhaustive enumeration of sub-expressions E (all expressions up to 3 nodes, 4 in the thorough tier, over 19 atoms of every stack effect incl. multi-yield, soft-failing, type-mismatching, closure and block atoms, and 8 combinators) in the forms ?(E), !(E), E op 1, 1 op E, [E], let X := E; and let X := E; X, each on every stack of depth 0-2 (and some of depth 3) over a value pool; every ?w/!w pair of the core and DWARF vocabularies on one value of every type; DWARF traversals (child, parent, attribute, @AT_x, unit, root, abbrev, closures of them) on every DIE of sample files. Metamorphic oracles evaluated on the implementation alone for every single input: output is nothing or the identical stack (depth, values, positions); exactly one of ?X/!X yields (neither only with a diagnostic, never both); let multiplies the unchanged stack by the number of results of E; [E] appends exactly the sequence of E's top values.",
    note="Executions that fail hard (API error) or diverge are outside the laws and counted; quick tier samples every 4th DW_* predicate word, thorough takes all.",
    tech="bounded exhaustive enumeration of sub-expressions x forms x input stacks on the implementation; metamorphic partition/identity laws"),
+ "C03": dict(cat="model_checking", ref="DESIGN.md §2 C03",
+   text="Exhaustive enumeration of binder programs: 40+ binder forms (let with one and two names, (|A|..), (|A B|..), [|A|..], ?(|A|..), {|A|..}, blocks with 0-3 up-values read in different orders than bound, blocks bound to names and applied once and twice, nested blocks, rebinding, bindings made inside plain parentheses / ?( ) / !( ) / ALT and OR branches / if arms / captures / closures / infix operands / blocks / binder parentheses) and 16 reading contexts (capture, ?( ), !( ), both infix operands, ALT and OR branches, then/else arms, condition, closure body, format splice, plain parentheses, twice), nested to depth 2 (quick, 119 355 programs) and a stride sample of depth 3 (thorough, ~1 M programs), with bound expressions that yield once or twice. Ill-scoped programs are included. The reference interpreter with its static scope analysis predicts the ordered results or the compile-time error class (rebound / unbound) of every program.",
+   note="The scope rules implemented by the reference are those of doc/syntax.rst 'Name binding'; names bound inside format splices are not generated; programs whose result order is not fixed by the documentation are compared as multisets.",
+   tech="bounded exhaustive enumeration of binder programs on the implementation vs reference interpreter with static scope analysis"),
+ "C11": dict(cat="model_checking", ref="DESIGN.md §2 C11",
+   text="(a) Explicit-state BFS over the real stack class (push of each of four value types, pop, drop 1-3, copy) to depth 7 (8 thorough): in every reachable state the cached type profile used by overload dispatch equals a recomputation from the top slots, for the object and its copy. (b) Every core word (19 unary, 20 binary, rot) applied to every operand tuple of a 30-value pool (boundary integers in every radix domain, strings with NUL/high bytes/regex metacharacters, nested and heterogeneous sequences, a closure, a boolean; 45 values thorough) reached through 8-14 history templates (depth 0-7, fillers of each type, drop/swap/rot/over/dup) is run on the engine and compared with the list/bytes reference model including positions and diagnostics; outcomes of the same word on the same operands must agree across histories.",
+   note="Reference model per word docstrings; ?match judged as POSIX ERE search via libc; comparison across types is C09's.",
+   tech="explicit-state BFS over the stack class + bounded exhaustive words x operands x histories vs reference model"),
+ "C12": dict(cat="model_checking", ref="DESIGN.md §3 C12",
+   text="Explicit enumeration of API histories over up to three simultaneously live result sets: executions are (compiled query object, input stack) pairs drawn from the query under test on two inputs, a second object compiled from the same text and a different corpus query; actions are execute, pull one result, destroy (before, at or after exhaustion, incl. pulling past the end). Every history with at most d deviations from 'run each to exhaustion in turn' (d = 1 for three executions and 2 for two in the quick tier; 2 and 3 thorough) is replayed on the real API for each of 32 core queries covering every stateful construct and nestings of them, and 17 DWARF queries over producers with caches with one Dwarf value shared by all executions. Oracle at every pull: equals the k-th result of a fresh-process parse-and-run; at the end both input stacks are unchanged.",
+   note="Histories of one query share a driver process (process-wide state accumulates, which is intended); no abstract-state merging is used, every history is executed; DWARF queries are compiled once per execution set.",
+   tech="explicit enumeration of API call histories (deviation-bounded) replayed on the implementation vs fresh-run reference"),
+ "C15": dict(cat="model_checking", ref="DESIGN.md §2 C15",
+   text="Every program of the C01 corpus up to 3 nodes (4 thorough) on three inputs, of the C03 binder corpus of depth 1 (a quarter of depth 2 thorough) and of a literal/format/infix corpus is rewritten by every applicable documented equivalence at every applicable position: seven layouts (blanks, newlines, tabs, three comment styles) at all token boundaries and at each boundary, redundant parentheses around every sub-program, every split point and escape spelling of string literals incl. raw strings and continuation, %s/%d/%x/%o/%b vs %( %), E? vs (E,), if vs (?(C) A, !(C) B), ?(E) vs ([E] != []), infix vs its ?(let..) expansion; and compiled with tree::simplify skipped. Both sides run on the engine and must give identical results or the same error.",
+   note="No model: both sides of each equivalence are executions of the implementation; equivalences that reorder alternatives are compared as multisets per input.",
+   tech="bounded exhaustive program x rewrite x position enumeration; differential execution on the implementation"),
 }
 NOT_YET = "check under construction in this session; not claimed until it has run to completion on the unchanged tree"
 
